@@ -160,16 +160,24 @@ class ActionContext(abc.ABC):
         Combine checks for rate limits, windows and condition.
         :return: True, if the trigger can be triggered.
         """
+        condition = self.location_action.condition
+        if condition is not None and len(condition.strip()) > 0:
+            # The condition is evaluated before the hit is claimed: while a hit is claimed it counts towards the limits,
+            # and a hit that its condition is about to reject must not stand in the way of a hit of another thread
+            # whose condition holds. (The limits are asked first, so a tracepoint that has used up its fire count does
+            # not evaluate its condition on every hit.)
+            if not self.location_action.can_trigger(self.trigger_context.ts, claim=False):
+                return False
+            result = self.trigger_context.evaluate_expression(condition)
+            if isinstance(result, BaseException):
+                # the condition could not be evaluated (we are given the error it raised), so it is not met
+                return False
+            if not str2bool(str(result)):
+                return False
         if not self.location_action.can_trigger(self.trigger_context.ts):
             return False
         self._claimed = True
-        if self.location_action.condition is None or len(self.location_action.condition.strip()) == 0:
-            return True
-        result = self.trigger_context.evaluate_expression(self.location_action.condition)
-        if isinstance(result, BaseException):
-            # the condition could not be evaluated (we are given the error it raised), so it is not met
-            return False
-        return str2bool(str(result))
+        return True
 
 
 class NoActionContext(ActionContext):
